@@ -61,6 +61,15 @@ func runMicro(t *testing.T, p microProg, seeds int) {
 	}
 }
 
+// foreignCtx is a caller's own Context implementation: package context (and the
+// simulated one) cannot see through it and has to watch its Done channel.
+type foreignCtx struct{ inner Context }
+
+func (f foreignCtx) Deadline() (time.Time, bool) { return f.inner.Deadline() }
+func (f foreignCtx) Done() *Chan[struct{}]       { return f.inner.Done() }
+func (f foreignCtx) Err() error                  { return f.inner.Err() }
+func (f foreignCtx) Value(any) any               { return nil }
+
 func join(xs []string) string { sort.Strings(xs); return strings.Join(xs, ",") }
 
 var micros = []microProg{
@@ -495,6 +504,25 @@ var micros = []microProg{
 			return "not done"
 		}
 		return fmt.Sprint(c.Err())
+	}},
+	{name: "context child of a foreign parent is cancelled later, by a watcher task", allowed: []string{"parent-done child-live context canceled", "parent-done child-done context canceled"}, prog: func() string {
+		inner, cancel := WithCancel(Background())
+		c, _ := WithCancel(foreignCtx{inner})
+		Go("canceller", func() { cancel() })
+		inner.Done().Recv()
+		out := "parent-done child-live "
+		if _, _, ready := c.Done().TryRecv(); ready {
+			out = "parent-done child-done "
+		}
+		c.Done().Recv()
+		return out + fmt.Sprint(c.Err())
+	}},
+	{name: "context child of a foreign parent: own cancel ends the watcher", allowed: []string{"context canceled <nil>"}, prog: func() string {
+		inner, _ := WithCancel(Background())
+		c, cancel := WithCancel(foreignCtx{inner})
+		cancel()
+		Quiesce()
+		return fmt.Sprint(c.Err(), inner.Err())
 	}},
 	{name: "context deadline", allowed: []string{"context deadline exceeded 50ms"}, prog: func() string {
 		t0 := Now()
